@@ -41,7 +41,11 @@ Inductive case :=
 | CaseSubFlood (via rate n answered : N)
   (* one view covering the client, these records (owner as parsed, type), this question: the indices of
      the records served, in order ([] = the view had no record and the query fell through) *)
-| CaseViewRecords (answers : list vrec) (qname : list N) (qtype : N) (served : list nat).
+| CaseViewRecords (answers : list vrec) (qname : list N) (qtype : N) (served : list nat)
+  (* the whole views handler: per view its networks and its records, the transport's remote, the question:
+     which view answered with which of ITS records, in order (None: the query went on down the chain) *)
+| CaseViewsFull (views : list (list prefix * list vrec)) (r : remote) (qname : list N) (qtype : N)
+                (answered : option (nat * list nat)).
 
 Definition all_ok (ps : list prefix) : bool := forallb prefix_ok ps.
 
@@ -135,6 +139,32 @@ Fixpoint spec_first_view (views : list (list prefix * bool)) (a : addr) (i : nat
   | v :: r => if spec_contains (fst v) a then (if snd v then Some i else None) else spec_first_view r a (S i)
   end.
 
+(* specification of the whole views handler, without the model: a genuine sub-query and a transport without a
+   client address pass; otherwise the first view (declaration order) whose networks contain the client
+   decides alone: it answers with the records [spec_view_answer] picks, or — having none — lets the query
+   fall through, whatever later views hold *)
+Fixpoint spec_views_pick (views : list (list prefix * list vrec)) (a : addr) (qname : list N) (qtype : N) (i : nat)
+  : option (nat * list nat) :=
+  match views with
+  | [] => None
+  | v :: rest =>
+      if spec_contains (fst v) a then
+        match spec_view_answer (snd v) qname qtype with [] => None | l => Some (i, l) end
+      else spec_views_pick rest a qname qtype (S i)
+  end.
+Definition outcome_eqb (o : views_outcome) (obs : option (nat * list nat)) : bool :=
+  match o, obs with
+  | VNext, None => true
+  | VAnswer i l, Some (j, m) => (i =? j)%nat && nats_eqb l m
+  | _, _ => false
+  end.
+Definition opt_pick_eqb (a b : option (nat * list nat)) : bool :=
+  match a, b with
+  | None, None => true
+  | Some (i, l), Some (j, m) => (i =? j)%nat && nats_eqb l m
+  | _, _ => false
+  end.
+
 Definition check_case (c : case) : bool :=
   match c with
   | CaseSet ps probes =>
@@ -172,6 +202,9 @@ Definition check_case (c : case) : bool :=
       end
   | CaseSubFlood via rate n answered => answered =? sub_flood_answered handler_order via rate n
   | CaseViewRecords answers qname qtype served => nats_eqb (view_answer answers qname qtype) served
+  | CaseViewsFull views r qname qtype answered =>
+      forallb (fun v => all_ok (fst v)) views &&
+      outcome_eqb (views_serve (map (fun v => (new_set (fst v), snd v)) views) r qname qtype) answered
   end.
 
 Definition spec_case (c : case) : bool :=
@@ -213,4 +246,7 @@ Definition spec_case (c : case) : bool :=
            end
   | CaseSubFlood via rate n answered => answered =? n
   | CaseViewRecords answers qname qtype served => nats_eqb (spec_view_answer answers qname qtype) served
+  | CaseViewsFull views r qname qtype answered =>
+      opt_pick_eqb (if spec_subquery r then None else
+                    match spec_client_ip r with Some a => spec_views_pick views a qname qtype 0 | None => None end) answered
   end.
